@@ -2,7 +2,7 @@
 R05.7 type names, R05.8 container-descend guard."""
 from sym import Explorer, explore, show, lin, lin_sub, subterms
 from pat import called, canon, is_call, deref_all, strip_casts, agg_variant, const_of, unwrap_ok, local_tail
-from mir import natural_loops
+from mir import natural_loops, callee_name
 from pathfacts import PathFacts, IntervalSet, INF
 from rules.layout import cv
 
@@ -561,3 +561,48 @@ def name_variants_alike(ctx, run, rule, only):
             run.violation(rule, p, 'name-variants', f'Name and QuotedName are handled differently: Name-only {only_n}, QuotedName-only {only_q}', loc)
     if n == 0:
         run.undecided(rule, 'functions::*', 'name-variants', 'no function branching on the kind of a key-path element was found: not decided')
+
+
+# ------------------------------------------------------------------ R05.17 a search over array elements looks at every element
+
+TRUNCATING = ('map_while', 'take_while')
+SEARCHES = ('any', 'all', 'find', 'find_map', 'position', 'count', 'sum', 'collect', 'fold', 'max', 'min', 'last', 'for_each', 'try_for_each', 'try_fold')
+
+
+def r05_17(ctx, run, rule='R05.17', only=None):
+    """The elements of an array are in no particular order, so a search through `iterate_array(..)` (any / find / position / collect ..)
+    must not sit behind an adaptor that *ends* the iteration at the first element failing a test (`map_while`, `take_while`): a matching
+    element after the first non-matching one would never be examined.  (`filter` / `filter_map` skip an element and go on.)"""
+    f = ctx.facts
+    n = 0
+    bad = []
+    for p, b in sorted(f.bodies.items()):
+        if b.kind == 'Promoted' or not p.startswith(('functions::', 'jsonpath::selector')) or (only is not None and not only(p)):
+            continue
+        if not any(called(callee_name(t), 'iterator::iterate_array') for _, t in b.calls()):
+            continue
+        loops = natural_loops(b)
+        ex = Explorer(b, max_paths=3000)
+        seen = set()
+        for s0 in [0] + sorted(loops):
+            for q in ex.explore(start=s0, stop=set(loops)):
+                for e in q.calls():
+                    last = canon(e[1]).split('::')[-1]
+                    if last not in SEARCHES and not (last == 'next' and 'Iterator' in e[1]) or not e[2]:
+                        continue
+                    chain = [canon(x[1]).split('::')[-1] for x in subterms(e[2][0]) if x[0] == 'call']
+                    if 'iterate_array' not in chain:
+                        continue
+                    key = (e[5].get('line'), last)
+                    if key in seen:
+                        continue
+                    seen.add(key)
+                    n += 1
+                    tr = [c for c in chain if c in TRUNCATING]
+                    if tr:
+                        bad.append((p, f"{e[5].get('file')}:{e[5].get('line')}", tr[0], last))
+    for p, loc, tr, last in bad:
+        run.violation(rule, p, f'truncated-search[{tr}]', f'`{last}` runs over iterate_array(..) behind `{tr}`, which ends the iteration at the first element that fails its test: array elements '
+                      'are unordered, so a matching element after a non-matching one is never looked at', loc)
+    if not bad:
+        run.proved(rule, '<crate>', 'truncated-search', f'{n} consumer(s) of iterate_array(..) chains examined: none sits behind map_while / take_while', nontrivial=bool(n))
